@@ -52,7 +52,28 @@ impl GraphCase {
         });
         GraphCase { specs, nodes, edges }
     }
+    /// the algorithm families build their graph in one call; to give them a multi-step history as well, a subset of the nodes
+    /// (determined by the case) is added again afterwards - a no-op on the abstract graph (same name, no attributes)
+    fn readd(&self, r: Result<G, graphrs::Error>) -> Result<G, graphrs::Error> {
+        let mut g = r?;
+        let h = (self.nodes.len() * 7 + self.edges.len() * 3) % 4;
+        if h != 0 {
+            for (i, n) in self.nodes.iter().enumerate() {
+                if (i + h) % 2 == 0 { g.add_node(N { name: *n, attr: None }.to_node()); }
+            }
+        }
+        Ok(g)
+    }
     pub fn build(&self) -> Result<G, graphrs::Error> {
+        self.readd(self.build_plain())
+    }
+    pub fn build_scaled(&self, div: u64) -> Result<G, graphrs::Error> {
+        self.readd(self.build_scaled_plain(div))
+    }
+    pub fn build_divided(&self, den: f64) -> Result<G, graphrs::Error> {
+        self.readd(self.build_divided_plain(den))
+    }
+    fn build_plain(&self) -> Result<G, graphrs::Error> {
         Graph::new_from_nodes_and_edges(
             self.nodes.iter().map(|n| N { name: *n, attr: None }.to_node()).collect(),
             { let mut arcs = crate::store::EdgeArcs::default(); self.edges.iter().map(|e| arcs.get(&E { u: e.0, v: e.1, w: e.2, attr: None })).collect() },
@@ -61,7 +82,7 @@ impl GraphCase {
     }
     /// the same graph with every weight divided by `div` (a power of two: exact in f64): non-integer weights for the
     /// algorithms whose model works on the integer numerators
-    pub fn build_scaled(&self, div: u32) -> Result<G, graphrs::Error> {
+    fn build_scaled_plain(&self, div: u64) -> Result<G, graphrs::Error> {
         Graph::new_from_nodes_and_edges(
             self.nodes.iter().map(|n| N { name: *n, attr: None }.to_node()).collect(),
             self.edges.iter().map(|e| match e.2 {
@@ -72,7 +93,7 @@ impl GraphCase {
         )
     }
     /// the same graph with every weight divided by an arbitrary number (not exact in f64)
-    pub fn build_divided(&self, den: f64) -> Result<G, graphrs::Error> {
+    fn build_divided_plain(&self, den: f64) -> Result<G, graphrs::Error> {
         Graph::new_from_nodes_and_edges(
             self.nodes.iter().map(|n| N { name: *n, attr: None }.to_node()).collect(),
             self.edges.iter().map(|e| match e.2 {
